@@ -59,12 +59,12 @@ class Side:
                  FA([x, y], z3.Implies(z3.And(self.atom(h, x), z3.Not(M(x)), self.atom(h, y), M(y), self.nbr(h, y, x)), F(x)), patterns=[self.nbr(h, y, x)])),
                 ("external-is-the-other-unmapped-atoms", FA([x], E(x) == z3.And(self.atom(h, x), z3.Not(M(x)), z3.Not(F(x))), patterns=[E(x)]))]
 
-    def shape(self, h, tag):
+    def shape(self, h, tag, state_sets=()):
         x, y = z3.Int(f"sx{tag}"), z3.Int(f"sy{tag}")
         nref = lambda v: h.d_get(H.D_NBRS, self.nb.ref, v)  # noqa
         return [z3.ForAll([x, y], z3.Implies(z3.And(self.atom(h, x), self.nbr(h, x, y)), z3.And(self.atom(h, y), self.nbr(h, y, x), x != y)), patterns=[self.nbr(h, x, y)]),
                 z3.ForAll([x], z3.Implies(self.mapped(h, x), self.atom(h, x)), patterns=[self.mapped(h, x)]),
-                z3.ForAll([x], z3.Implies(self.atom(h, x), z3.And(nref(x) >= 0, nref(x) < h.A0, nref(x) != self.F.ref, nref(x) != self.E.ref)), patterns=[nref(x)])]
+                z3.ForAll([x], z3.Implies(self.atom(h, x), z3.And(nref(x) >= 0, nref(x) < h.A0, *[nref(x) != r for r in state_sets])), patterns=[nref(x)])]
 
 
 def verify_update_state(obs, world, timeout=10000):
@@ -89,7 +89,7 @@ def verify_update_state(obs, world, timeout=10000):
         interp.assume(z3.And(s1.nb.ref != s2.nb.ref, s1.map.ref != s2.map.ref))
         h0 = h.snapshot()
         for s_, t_ in ((s1, "1"), (s2, "2")):
-            for f in s_.shape(h0, t_):
+            for f in s_.shape(h0, t_, [s1.F.ref, s1.E.ref, s2.F.ref, s2.E.ref]):
                 interp.assume(f)
         # the pair has just been entered into both mappings
         interp.assume(z3.And(s1.atom(h0, a), s2.atom(h0, b), s1.mapped(h0, a), s2.mapped(h0, b)))
